@@ -339,6 +339,7 @@ func sameTreeRules(p *core.Program, r *core.Report, rule string) {
 				return true
 			})
 			n := 0
+			stLd := eng.SingleDefs(info, fd.Body)
 			ast.Inspect(fd.Body, func(nd ast.Node) bool {
 				call, ok := nd.(*ast.CallExpr)
 				if !ok {
@@ -368,7 +369,7 @@ func sameTreeRules(p *core.Program, r *core.Report, rule string) {
 					n++
 					key := fmt.Sprintf("%s/call %s#%d/arg %d", fname, fn.Name(), countCallsBefore(fd, call, info, fn), i)
 					ok, detail := false, "argument "+eng.ExprStr(a)+" is not the pipeline's tree"
-					a = eng.Unparen(a)
+					a = stLd.Resolve(a) // a name given to &tree.Node is looked through
 					if isTree {
 						if id, isID := a.(*ast.Ident); isID {
 							obj := info.Uses[id]
